@@ -181,6 +181,35 @@ fn sweep_selection(rep: &mut Report, store: &AnnotationStore, text: &str, b: usi
     }
 }
 
+/// a resource outside any store (the low-level type), built in one step or with its text replaced afterwards
+fn sweep_raw(rep: &mut Report, res: &TextResource, text: &str, cfgname: &str, how: &str) {
+    let (table, len) = naive_table(text);
+    let ctx = |extra: Value| json!({"text": text, "config": cfgname, "built": how, "at": extra});
+    for p in 0..=len {
+        rep.eval();
+        match guard(|| res.utf8byte(p)) {
+            Ok(Ok(b)) if b == table[p] => {}
+            Ok(other) => rep.violation(format!("C12/raw-resource/utf8byte/wrong/{}", how), ctx(json!({"pos": p, "got": format!("{:?}", other.ok()), "want": table[p]}))),
+            Err(pn) => rep.violation(format!("C12/raw-resource/utf8byte/panic/{}", pn.class()), ctx(json!({"pos": p, "panic": pn.msg}))),
+        }
+    }
+    for b in 0..=text.len() {
+        rep.eval();
+        let want = table.iter().position(|x| *x == b);
+        match guard(|| res.utf8byte_to_charpos(b)) {
+            Ok(Ok(c)) if want == Some(c) => {}
+            Ok(Ok(c)) => rep.violation(format!("C12/raw-resource/utf8byte_to_charpos/wrong/{}", how), ctx(json!({"byte": b, "got": c, "want": want}))),
+            Ok(Err(_)) => {
+                if want.is_some() {
+                    rep.violation(format!("C12/raw-resource/utf8byte_to_charpos/err-on-boundary/{}", how), ctx(json!({"byte": b, "want": want})));
+                }
+            }
+            Err(pn) => rep.violation(format!("C12/raw-resource/utf8byte_to_charpos/panic/{}", pn.class()), ctx(json!({"byte": b, "panic": pn.msg}))),
+        }
+    }
+    rep.distinct(&format!("raw/{}/{}", cfgname, how));
+}
+
 fn conversion_case(rep: &mut Report, rng: &mut Rng, long: bool) {
     let text = if long { gen_text(rng, 90, 260) } else { gen_text(rng, 0, 24) };
     let len = text.chars().count();
@@ -214,6 +243,16 @@ fn conversion_case(rep: &mut Report, rng: &mut Rng, long: bool) {
             sweep_resource(rep, &store, &text, &cfgname, "after-annotations");
             for (b, e) in subs.iter().chain(ranges.iter()) {
                 sweep_selection(rep, &store, &text, *b, *e, &cfgname, "after-annotations");
+            }
+            if !shrink {
+                let cfg = || Config::default().with_debug(false).with_milestone_interval(interval);
+                let other = gen_text(rng, 3, 30);
+                if let Ok(r) = guard(|| TextResource::from_string("raw", text.clone(), cfg())) {
+                    sweep_raw(rep, &r, &text, &cfgname, "from_string");
+                }
+                if let Ok(r) = guard(|| TextResource::from_string("raw", other.clone(), cfg()).with_string(text.clone())) {
+                    sweep_raw(rep, &r, &text, &cfgname, "text-replaced");
+                }
             }
             rep.distinct(&format!("conv/{}/len{}/multibyte={}", cfgname, if len == 0 { "0".to_string() } else if len < 100 { "<100".into() } else { ">=100".into() }, text.len() != len));
         }
@@ -316,7 +355,7 @@ fn knob_case(rep: &mut Report, seed: u64, k: u64, thorough: bool) {
 }
 
 pub fn run(p: &Params, rep: &mut Report) {
-    rep.rule = "(a) for seeded texts over 1-4 byte codepoints (short: every sub-range; long 90-260 codepoints so that interval 100 matters) and each of 12 configurations (milestone interval 0,1,2,3,7,100 x shrink_to_fit), before and after annotations populate the position index: every position 0..=len+2 through utf8byte, every byte offset 0..=bytes+2 through utf8byte_to_charpos, round trip, on the resource and on sub-selections (bound and unbound; bound ones also through ResultItem<TextSelection>), against a naive char_indices table; (b) the same seeded op-history replayed under the 12 configurations must yield identical full observations (all lookups) and identical segmentation / find_text / related_text answers. distinct_nontrivial = distinct (configuration, length class, multibyte?) cells + distinct store shapes compared".into();
+    rep.rule = "(a) for seeded texts over 1-4 byte codepoints (short: every sub-range; long 90-260 codepoints so that interval 100 matters) and each of 12 configurations (milestone interval 0,1,2,3,7,100 x shrink_to_fit), before and after annotations populate the position index: every position 0..=len+2 through utf8byte, every byte offset 0..=bytes+2 through utf8byte_to_charpos, round trip, on the resource (in a store, and the low-level TextResource built in one step or with its text replaced) and on sub-selections (bound and unbound; bound ones also through ResultItem<TextSelection>), against a naive char_indices table; (b) the same seeded op-history replayed under the 12 configurations must yield identical full observations (all lookups) and identical segmentation / find_text / related_text answers. distinct_nontrivial = distinct (configuration, length class, multibyte?) cells + distinct store shapes compared".into();
     rep.assumptions = vec!["utf8byte on a selection for a position beyond the selection but inside the resource is not judged (undocumented)".into()];
     let nconv: u64 = if p.thorough { 1500 } else { 200 };
     let nknob: u64 = if p.thorough { 3000 } else { 400 };
